@@ -192,6 +192,8 @@ class World:
         if op == "delete":
             return outcome(lambda: s.deleteRule(a["i"]))
         if op == "settext":
+            if "text" in a:
+                return outcome(lambda: setattr(s, "cssText", a["text"]))
             return outcome(lambda: setattr(s, "cssText", "\n".join(text_of(r) for r in a["rules"])))
         if op == "setenc":
             return outcome(lambda: setattr(s, "encoding", None if a["e"] == "none" else a["e"]))
@@ -233,7 +235,13 @@ def run_trace(item):
         actions.insert(len(actions) - 1, {"op": "settext", "rules": "#current"})
     for a in actions:
         if a.get("rules") == "#current":
-            a = {"op": "settext", "rules": [abstract_rule(r) for r in w.sheet.cssRules]}
+            cur = [abstract_rule(r) for r in w.sheet.cssRules]
+            out0, txt = outcome(lambda: w.sheet.cssText.decode("utf-8"))
+            out1, again = outcome(lambda: [abstract_rule(r) for r in cssutils.CSSParser(fetcher=fetcher).parseString(txt).cssRules]) if out0 == "ok" else ("x", None)
+            cssutils.log.raiseExceptions = True
+            if out1 != "ok" or again != cur:
+                continue        # the sheet's own text does not denote its rules (judged elsewhere): no reparse step here
+            a = {"op": "settext", "rules": cur, "text": txt}
         out, ret = w.apply(a)
         tr["steps"].append({"a": a, "out": out, "post": w.project()})
     return tr
